@@ -5,6 +5,13 @@ import cases as C
 import vlib as V
 
 
+def contiguous(cases, n):
+    """split into at most n contiguous chunks (multiples of the history group size 4)"""
+    size = max(4, -(-len(cases) // n))
+    size += (-size) % 4
+    return [cases[i:i + size] for i in range(0, len(cases), size)]
+
+
 def run(tier, seed):
     t0 = time.time()
     th = tier == 'thorough'
@@ -19,9 +26,12 @@ def run(tier, seed):
             if per[k] <= 20:
                 keep.append(c)
         cs = keep
+    # neighbours in the case order end up in the same process and the same history group: keep the two float types of
+    # one family with equal parameters next to each other
+    cs.sort(key=lambda c: (c['fam'].split(':')[0], [float(v) for v in c['pv']][:4], c['fam'], c['ty']))
     b = V.build('release')
     wd = V.workdir('c14')
-    jobs = [{'cases': [C.strip(c) for c in sh], 'seeds': 16 if th else 8, 'hist_len': 1000, 'group': 4, 'verif_seed': seed, '_bin': b} for sh in V.shard(cs, V.NCPU * 2)]
+    jobs = [{'cases': [C.strip(c) for c in sh], 'seeds': 16 if th else 8, 'hist_len': 1000, 'group': 4, 'verif_seed': seed, '_bin': b} for sh in contiguous(cs, V.NCPU * 2)]
     # constructors that take long enough (10^5..10^7 loop steps) for concurrent constructions to overlap: kept adjacent in
     # one job so that the concurrent-construction check builds them alternately from 8 threads
     slow = [C.mk('hypergeometric', 'u64', list(p), ('c03',)) for p in [(10 ** 6, 20, 10 ** 5), (10 ** 6, 30, 150000), (4 * 10 ** 6, 9, 2 * 10 ** 6), (3 * 10 ** 6, 5, 10 ** 6)]]
@@ -29,7 +39,7 @@ def run(tier, seed):
     cs = cs + slow
     events, meta = V.run_shards(None, 'c14', jobs, wd, 'c14', wall_timeout=7200)
     ver = V.Verdict('C14')
-    calls = pairs = hist = replayed = concurrent = 0
+    calls = pairs = hist = replayed = concurrent = boundaries = 0
     seen = set()
     ncase = 0
     for e in events:
@@ -39,6 +49,8 @@ def run(tier, seed):
             calls += e['calls']
             pairs += e['pairs']
             seen.add((e['case']['fam'], e['case']['ty']))
+        elif ev == 'boundaries':
+            boundaries += e['located']
         elif ev == 'concurrent':
             concurrent += e['values_built_concurrently']
         elif ev == 'histories':
@@ -58,7 +70,7 @@ def run(tier, seed):
         'rule': 'one evaluation = one sample() call that takes part in a comparison (same value twice, clone, rebuilt value, sample_iter, 8 threads vs single thread, call replayed alone from its recorded words); '
                 'distinct_nontrivial = distribution values (family x type x parameters) put through all comparisons',
         'samples': [{'history': 'objects %s share one recording RNG in random order for 1000 calls; a spread of <= 400 calls per history is replayed alone from its recorded word slice and must return the same bits and consume exactly those words' % [c['id'] for c in cs[:4]]}],
-        'paired_comparisons': pairs, 'values_built_concurrently_and_compared': concurrent, 'interleaved_histories': hist, 'calls_replayed_out_of_history': replayed,
+        'paired_comparisons': pairs, 'acceptance_boundaries_located_exactly_and_recompared': boundaries, 'values_built_concurrently_and_compared': concurrent, 'interleaved_histories': hist, 'calls_replayed_out_of_history': replayed,
         'family_type_pairs': len(seen), 'missing_pairs': sorted(expected - seen),
         'known_findings_hit': {k: v['n'] for k, v in ver.known_hits.items()},
     }
